@@ -7,6 +7,16 @@ ALL = ["C%02d" % i for i in range(1, 21)]
 
 # property -> (category, technique, text, note, design_ref)
 CHECKS = {
+ "C09": ("model_checking",
+   "bounded exhaustive enumeration of datasets x every data-derived initialisation x iteration budgets, the real fit stepped in lock-step with a reference Lloyd (m_k-means) state graph whose ties branch; exhaustive restart / seed / budget grids",
+   "Every 1-D multiset of <=5/8 points of {0..4} and every subset of <=4/6 points of the 3x3 lattice (affine images, f32/f64, L1/L2), k <= 3/4, every k-sub-multiset of the data (plus off-data starts) as Precomputed initialisation, every budget m = 1..6/12: the returned centroids must be a state the reference m_k-means step reaches after m updates (tie resolutions branch in the reference state graph; states/transitions reported), cost never increases with the budget (L2); Random / k-means++ / k-means|| x seeds x caps x restarts: inertia never rises with more restarts from the same seed; every fitted model: shape, finiteness, bounding box, predict / transform against an independent arg-min scan with tie sets on training, lattice, half-lattice and far queries; reported inertia and cluster_count must describe the returned centroids.",
+   "Bounded: n <= 8 points. Seeded initialisers are not observable (pub(crate)), so those fits get the structural / restart / describes-returned checks only. Cases whose tie branching exceeds 4096 branches per step are counted indeterminate.",
+   "DESIGN.md 4/C09"),
+ "C17": ("exploration",
+   "bounded exhaustive enumeration of corpora over a small token alphabet x the full settings grid against an own tokeniser + n-gram window + recount",
+   "Every token sequence of length 0..3 over a 6-word alphabet (mixed case, combining characters, separators, noise tokens) as documents, every single document and every ordered pair / triple of short documents as corpora; lower-casing x normalisation x 5 tokenisers (regexes and functions) x 6 n-gram ranges; the filtering grid: stop-word sets x all 15 document-frequency windows over {0,.25,.5,.75,1} (products exact) x feature caps; fixed vocabularies incl. duplicates; the three idf methods; every fitted vocabulary applied to unseen corpora. Oracle: own NFKD / lower-case tables, tokenisers, n-gram window and BTreeMap recount; vocabulary compared as a set and as word -> column map; tf-idf == count x documented idf of the transformed corpus.",
+   "Feature cap: any top-k by DOCUMENT frequency is accepted (the anchored mechanism ranks by the stored document frequency; the rustdoc of max_features says 'term frequency' - a documentation / code contradiction recorded in DESIGN.md, not judged). fit_files / transform_files are not exercised.",
+   "DESIGN.md 4/C17"),
  "C01": ("model_checking",
    "bounded exhaustive exploration of every (n, k, features, target shape, storage kind) with iter_fold stepped as a state machine in lock-step with a reference k-fold on a Vec of tagged rows; fault enumeration over every (model, fold) fit / eval error",
    "Every n <= 12/30 with every 2 <= k <= n, 1-3 features, 1-d and 2-d (1-3 column) targets, owned / view / strided / column-major storage, f64 and f32/u32: fold() pairs against the reference blocks and complements; iter_fold observed through the closure's training view, the yielded validation view and the final buffer at every step (reference buffer permuted in lock-step; dataset must be bit-identical afterwards, also when the iterator is dropped early); cross_validate / cross_validate_single with 1-3 mock models implementing the real Fit / PredictInplace traits, four evaluation closures and an injected fit or eval error at every (model, fold): scores == hand-rolled mean over the reference folds, errors surface as themselves, dataset restored in every outcome.",
